@@ -160,6 +160,9 @@ int main(int argc, char **argv) {
         if (r.v.set) viol++;
         printf("%s\n", result_line(sd, p, r, false, (int) (i - first) < samples).c_str());
         fflush(stdout);
+        if (r.v.set && r.v.cls == "leak") {   // leaked blocks would be reported again by every later leak check of this process
+            printf("RESTART\n"); fflush(stdout); _exit(0);
+        }
     }
     printf("END %d\n", viol);
     fflush(stdout);
